@@ -46,7 +46,11 @@ def gen(rng, tier):
             'args': [gen_value(rng, 1) for _ in range(rng.randrange(0, 3))],
             'id': rng.choice([None, 0, 5, 77]),
             'auth': rng.choice([None, {'t': 1}]),
-            'end': rng.choice(['cdisc', 'sdisc', 'sever'])}
+            'end': rng.choice(['cdisc', 'sdisc', 'sever']),
+            # class-based namespaces that override trigger_event() (the
+            # documented way to catch every event in one method) instead of
+            # defining on_<event> methods
+            'override': rng.random() < 0.25}
 
 
 def config_of(seed):
@@ -87,6 +91,8 @@ def run(case):
     w = make_world(mode, seed=case['seed'],
                    choices_replay=case.get('choices'), policy='fifo')
     try:
+        if side == 'server' and case.get('override') and bits & 48:
+            return _run_override(case, bits, other, mode, coroutine, w)
         if side == 'server':
             return _run_server(case, bits, other, mode, coroutine, w)
         return _run_client(case, bits, other, mode, coroutine, w)
@@ -276,6 +282,87 @@ def _run_server(case, bits, other, mode, coroutine, w):
     tgt = expected_target(bits, 'disconnect', reserved)
     _check(v, w, n0, 'disconnect (lifecycle: %s)' % end, tgt, ns,
            'disconnect', 's', [sid, reason])
+    return _result(v, w, bits, other, ('server', mode, coroutine))
+
+
+def _run_override(case, bits, other, mode, coroutine, w):
+    """Server with function handlers per bits 1/2/4/8 and class-based
+    namespaces (bits 16/32) whose trigger_event() is overridden."""
+    from sim.world import clean
+    v = V(PROP)
+    ns, ev = case['ns'], case['ev']
+    reserved = ('connect', 'disconnect')
+    srv = w.add_server('s', namespaces='*', async_handlers=False)
+    rec = w.rec
+
+    def plan(label, args, evt):
+        return [('ret', None if label[3] == 'connect' else 'R')]
+    _register(w, srv, 's', bits & 15, other, ns, [ev, 'connect', 'disconnect'],
+              plan, coroutine, client=False)
+    if mode == 'async':
+        class Catch(socketio.AsyncNamespace):
+            async def trigger_event(self_, event, *args):
+                rec.add('h_enter', label=('s', 'class', self_.namespace,
+                                          event), args=clean(args))
+                return None if event == 'connect' else 'R'
+    else:
+        class Catch(socketio.Namespace):
+            def trigger_event(self_, event, *args):
+                rec.add('h_enter', label=('s', 'class', self_.namespace,
+                                          event), args=clean(args))
+                return None if event == 'connect' else 'R'
+    if bits & 16:
+        srv.register_namespace(Catch(ns))
+    if bits & 32:
+        srv.register_namespace(Catch('*'))
+
+    def target(event):
+        t = expected_target(bits & 15, event, reserved)
+        if t is not None:
+            return t
+        if bits & 16:
+            return ('class', 'NS', 'EV', [])
+        return ('class', '*', 'EV', ['ns'])
+    peer = w.add_peer('s')
+    peer.open()
+    w.settle()
+    n0 = len(w.rec.events)
+    peer.send_pkt(sio.CONNECT, ns, None, None)
+    w.settle()
+    ans = [r['pkt'] for r in peer.rx if r['pkt'].nsp == ns]
+    if not ans or ans[0].type != sio.CONNECT:
+        v.add('connect_not_accepted', repr(ans), 'override')
+        return _result(v, w, bits, other, ('server', mode, coroutine))
+    sid = ans[0].data['sid']
+    new = [e for e in w.rec.events[n0:] if e['kind'] == 'h_enter']
+    core = [sid, '<environ>']
+    tgt = target('connect')
+    if new and len(new[0]['args']) == len(core) + 1 + len(tgt[3]) and \
+            new[0]['args'][-1] is None:
+        core = core + [None]
+    _check(v, w, n0, 'connect (override)', tgt, ns, 'connect', 's', core)
+    for name, evn, args, id_ in (('event', ev, case['args'], 6),
+                                 ('unregistered-event',
+                                  'nobody-handles-this', [1], 7)):
+        n0 = len(w.rec.events)
+        n_rx = len(peer.rx)
+        peer.send_pkt(sio.EVENT, ns, id_, [evn] + args)
+        w.settle()
+        t = target(evn) if name == 'event' else (
+            ('func', 'NS', '*', ['event']) if bits & 2 else
+            ('func', '*', '*', ['event', 'ns']) if bits & 8 else
+            ('class', 'NS', 'EV', []) if bits & 16 else
+            ('class', '*', 'EV', ['ns']))
+        _check(v, w, n0, name + ' (override)', t, ns, evn, 's',
+               [sid] + wire_norm(args))
+        acks = [r['pkt'] for r in peer.rx[n_rx:] if r['pkt'].base == sio.ACK]
+        if [(a.id, a.data) for a in acks] != [(id_, ['R'])]:
+            v.add('ack_content', '%s: acks %s' % (name, acks), 'override')
+    n0 = len(w.rec.events)
+    peer.send_pkt(sio.DISCONNECT, ns, None, None)
+    w.settle()
+    _check(v, w, n0, 'disconnect (override)', target('disconnect'), ns,
+           'disconnect', 's', [sid, 'client disconnect'])
     return _result(v, w, bits, other, ('server', mode, coroutine))
 
 
